@@ -254,6 +254,17 @@ class Check:
             bad = (not closed) and not self._axioms_allowed(txt)
             self.obligation(f'{module}.{th}', not bad, 'theorem', self.axioms[th])
             allok &= not bad
+        if self.thorough and allok:
+            # independent re-check of the compiled property file and everything it depends on
+            with CoqLock(shared=True):
+                rc, out = sh(f'timeout 2400 coqchk -silent -o -Q theories KV KV.Properties.{module}', cwd=COQ, timeout=2500)
+            m = re.search(r'\* Axioms:(.*?)\n\s*\n\* Constants', out, flags=re.S)
+            axioms = re.sub(r'\s+', ' ', m.group(1)).strip() if m else 'unparsed'
+            okc = rc == 0 and (axioms == '<none>' or self._axioms_allowed('Axioms:\n' + axioms.replace(' ', ' : x\n')))
+            self.axioms['coqchk'] = axioms
+            self.checker_cmds.append(f'coqchk -silent -o -Q theories KV KV.Properties.{module}')
+            self.obligation(f'{module}: coqchk re-checks the compiled development (axioms: {axioms})', okc, 'theorem', out[-600:] if not okc else axioms)
+            allok &= okc
         self.build_time = time.time() - t
         return allok, ''
 
